@@ -255,7 +255,55 @@ class Check:
         solver_wall = time.time() - t_s0
         for i, o in enumerate(todo):
             o.result = res[i]
+        if self.tier == "thorough" or os.environ.get("VERIF_CROSSCHECK"):
+            self._crosscheck(todo)
         return self._conclude(solver_wall, farm.cpu)
+
+    def _crosscheck(self, todo):
+        """second-solver cross-check of a seeded sample of the non-trivial queries (cvc5 binary and z3 4.8.12):
+        a verdict disagreement (sat vs unsat) is a harness error; time-outs / unknown are ignored"""
+        import random
+        import subprocess
+        import tempfile
+
+        cand = [o for o in todo if o.text and not o.result.get("trivial") and o.result.get("status") in ("sat", "unsat") and len(o.text) < 400000]
+        rng = random.Random(self.seed + 99)
+        sample = rng.sample(cand, min(len(cand), 24))
+        agree = disagree = inconclusive = 0
+
+        def one(o):
+            out = {}
+            with tempfile.NamedTemporaryFile("w", suffix=".smt2", delete=False) as f:
+                f.write(o.text)
+                path = f.name
+            try:
+                for name, cmd in (("cvc5", ["cvc5", "--tlimit=20000", path]), ("z3-4.8", ["/usr/bin/z3", "-T:20", path])):
+                    try:
+                        p = subprocess.run(cmd, capture_output=True, text=True, timeout=40)
+                        first = (p.stdout.strip().splitlines() or ["unknown"])[0].strip()
+                        if "(error" in p.stdout + p.stderr:
+                            first = "unknown"
+                    except subprocess.TimeoutExpired:
+                        first = "unknown"
+                    out[name] = first if first in ("sat", "unsat") else "unknown"
+            finally:
+                os.unlink(path)
+            return out
+
+        from concurrent.futures import ThreadPoolExecutor
+
+        with ThreadPoolExecutor(max_workers=8) as tp:
+            results = list(tp.map(one, sample))
+        for o, r in zip(sample, results):
+            for name, v in r.items():
+                if v == "unknown":
+                    inconclusive += 1
+                elif v == o.result["status"]:
+                    agree += 1
+                else:
+                    disagree += 1
+                    self.errors.append(f"solver disagreement on {o.name}: z3-5.1 says {o.result['status']}, {name} says {v}")
+        self.extra["crosscheck"] = {"sampled_queries": len(sample), "second_solver_agreements": agree, "disagreements": disagree, "inconclusive": inconclusive, "solvers": ["cvc5 1.0.3 (binary)", "z3 4.8.12 (binary)"]}
 
     def _conclude(self, solver_wall, solver_cpu):
         findings = load_findings(self.pid)
